@@ -6,9 +6,11 @@
  "mode": "dfcc", "enforce": "reallocarray/reallocarray_contract",
  "kind": "proof",
  "noreturn_macros": false, "stubs": [],
+ "cbmc_flags": ["--smt2"], "retry_no_simplify": false,
  "timeout": 120,
  "expects": ["postcondition", "assigns"],
- "assumes": ["realloc is the wrapper of util_common.h: fails (NULL, ENOMEM) when the environment says so, otherwise CBMC's realloc model"]
+ "assumes": ["decided by Z3 (cbmc --smt2): the 64-bit division in the guard against the oracle does not finish with the SAT back end",
+             "realloc is the wrapper of util_common.h: fails (NULL, ENOMEM) when the environment says so, otherwise CBMC's realloc model"]
 }
 */
 #include "util_common.h"
